@@ -31,9 +31,13 @@ VoidTag     == [k |-> "voidtag"]            \* a union member written without a 
 DImport(t)  == [k |-> "import", target |-> t]
 DField(n, t) == [n |-> n, t |-> t, dflt |-> FALSE]
 DFieldD(n, t) == [n |-> n, t |-> t, dflt |-> TRUE]          \* with a (valid) literal default
-DStructS(n, ext, fields, hassubs, subs, catchall) ==
+DStructX(n, ext, fields, hassubs, subs, catchall, examples) ==
     [k |-> "struct", n |-> n, ext |-> ext, fields |-> fields, hassubs |-> hassubs, subs |-> subs,
-     catchall |-> catchall]
+     catchall |-> catchall, examples |-> examples]
+DStructS(n, ext, fields, hassubs, subs, catchall) == DStructX(n, ext, fields, hassubs, subs, catchall, <<>>)
+\* an example: a label and `field = literal` lines; literal kinds "int", "str", "null"
+Ex(label, assigns) == [label |-> label, assigns |-> assigns]
+As(n, lit) == [n |-> n, lit |-> lit]
 DStruct0(n, ext, fields) == DStructS(n, ext, fields, FALSE, <<>>, FALSE)
 DUnionS(n, closed, ext, tags) == [k |-> "union", n |-> n, closed |-> closed, ext |-> ext, tags |-> tags]
 DAliasS(n, t) == [k |-> "alias", n |-> n, t |-> t]
@@ -220,6 +224,26 @@ DefViolations(m, ns, d) ==
                        Range(FieldNames(d)) \cap OwnNames(LookupT(m, a[1], a[2])) # {} THEN {"T8"} ELSE {}) \cup
                (IF \E i \in DOMAIN d.fields : d.fields[i].dflt /\
                        (d.fields[i].t.nullable \/ ChainNullable(m, ns, d.fields[i].t, 4)) THEN {"T10"} ELSE {}) \cup
+               \* examples (lang_ref "Examples"): known fields only, every required field, literals of the field's type
+               (IF d.examples # <<>> /\ ~InCycle(m, ns, d.n) THEN
+                   LET chain == [i \in DOMAIN anc |-> LookupT(m, anc[i][1], anc[i][2]).fields]
+                       allf  == Flat(chain) \o d.fields
+                       fnames == {allf[i].n : i \in DOMAIN allf}
+                       ftype(n) == (CHOOSE i \in DOMAIN allf : allf[i].n = n)
+                       LitOk(f, lit) ==
+                           LET r == Resolved(m, ns, f.t, 6) IN
+                           \/ lit = "null" /\ (f.t.nullable \/ ChainNullable(m, ns, f.t, 4))
+                           \/ lit = "int" /\ r.kind = "builtin" /\ r.n = "Int32"
+                           \/ lit = "str" /\ r.kind = "builtin" /\ r.n = "String"
+                   IN  (IF \E e \in Range(d.examples) : \E a \in Range(e.assigns) : a.n \notin fnames THEN {"X1"} ELSE {}) \cup
+                       (IF \E e \in Range(d.examples) : \E i \in DOMAIN allf :
+                              ~allf[i].dflt /\ ~allf[i].t.nullable /\ ~ChainNullable(m, ns, allf[i].t, 4)
+                              /\ allf[i].n \notin {a.n : a \in Range(e.assigns)} THEN {"X2"} ELSE {}) \cup
+                       (IF \E e \in Range(d.examples) : \E a \in Range(e.assigns) :
+                              a.n \in fnames /\ ~LitOk(allf[ftype(a.n)], a.lit) THEN {"X3"} ELSE {}) \cup
+                       (IF HasDup([i \in DOMAIN d.examples |-> d.examples[i].label]) THEN {"S9"} ELSE {}) \cup
+                       (IF \E e \in Range(d.examples) : HasDup([i \in DOMAIN e.assigns |-> e.assigns[i].n]) THEN {"S10"} ELSE {})
+                ELSE {}) \cup
                \* enumerated subtypes
                (IF d.hassubs THEN
                    UNION {RefViolations(m, ns, d.subs[i].t) : i \in DOMAIN d.subs} \cup
@@ -293,7 +317,8 @@ DenoteDef(m, ns, d) ==
                                    LET a == Ancestors(m, ns, d.n, NTypes(m))[Len(Ancestors(m, ns, d.n, NTypes(m))) + 1 - i]
                                    IN  FieldNames(LookupT(m, a[1], a[2]))]) \o FieldNames(d),
             subs |-> [i \in DOMAIN d.subs |-> [tag |-> d.subs[i].n, sub |-> Resolved(m, ns, d.subs[i].t, 6).n]],
-            hassubs |-> d.hassubs, catchall |-> d.hassubs /\ d.catchall]
+            hassubs |-> d.hassubs, catchall |-> d.hassubs /\ d.catchall,
+            examples |-> {d.examples[i].label : i \in DOMAIN d.examples}]
       [] d.k = "union" ->
            [k |-> "union", n |-> d.n, parent |-> ParentOf(m, ns, d.n), closed |-> d.closed,
             tags |-> FieldNames(d) \o
@@ -302,7 +327,12 @@ DenoteDef(m, ns, d) ==
             tagtypes |-> [i \in DOMAIN d.tags |-> d.tags[i].t],
             all_tags |-> Flat([i \in DOMAIN Ancestors(m, ns, d.n, NTypes(m)) |->
                                    LET a == Ancestors(m, ns, d.n, NTypes(m))[Len(Ancestors(m, ns, d.n, NTypes(m))) + 1 - i]
-                                   IN  FieldNames(LookupT(m, a[1], a[2]))]) \o FieldNames(d)]
+                                   IN  FieldNames(LookupT(m, a[1], a[2]))]) \o FieldNames(d),
+            \* "one example per void tag": own, inherited, and the catch-all
+            examples |-> {t.n : t \in {x \in UNION {Range(LookupT(m, a[1], a[2]).tags) :
+                                                      a \in Range(Ancestors(m, ns, d.n, NTypes(m))) \cup {<<ns, d.n>>}} :
+                                        x.t.k = "voidtag"}}
+                         \cup (IF IsOpen(m, ns, d.n) THEN {"other"} ELSE {})]
       [] d.k = "alias" -> [k |-> "alias", n |-> d.n, t |-> d.t]
       [] d.k = "route" -> [k |-> "route", n |-> d.n, ver |-> d.ver, arg |-> d.arg, res |-> d.res, err |-> d.err,
                            deprecated |-> d.dep.k # "nodep",
